@@ -318,7 +318,14 @@ Loop:
 			break Loop
 		case MajorIteration:
 			// The last thing we did was update all of the tasks and send the
-			// major iteration. Now we can send a group of tasks again.
+			// major iteration.
+			if cma.updateErr != nil || cma.methodConverged() != NotTerminated {
+				// That update ended the optimization.
+				result.Op = MethodDone
+				operations <- result
+				continue Loop
+			}
+			// Now we can send a group of tasks again.
 			cma.sendInitTasks(tasks)
 		case FuncEvaluation:
 			cma.receivedIdx++
@@ -341,23 +348,17 @@ Loop:
 				cma.sentIdx = 0
 
 				task := cma.findBestAndUpdateTask(result)
-				// Update the parameters and send a MajorIteration or a convergence.
-				err := cma.update()
+				// Update the parameters and send a MajorIteration. If the
+				// update fails or converges the method, MethodDone is sent
+				// once the best location of this generation has been declared.
+				cma.updateErr = cma.update()
 				// Kill the existing data.
 				for i := range cma.fs {
 					cma.fs[i] = math.NaN()
 					cma.xs.Set(i, 0, math.NaN())
 				}
-				switch {
-				case err != nil:
-					cma.updateErr = err
-					task.Op = MethodDone
-				case cma.methodConverged() != NotTerminated:
-					task.Op = MethodDone
-				default:
-					task.Op = MajorIteration
-					task.ID = -1
-				}
+				task.Op = MajorIteration
+				task.ID = -1
 				operations <- task
 			}
 		}
